@@ -151,6 +151,7 @@ PROPS["C15"] = {
     "jobs": [
         {"name": "exhaustive", "pkg": "./c15", "run": "^TestExhaustive$", "shards": T(4, 16), "timeout": T(600, 3600)},
         {"name": "rapid", "pkg": "./c15", "run": "^TestRapid$", "rapid": T(8000, 60000), "shards": T(2, 8), "replay": "^TestReplay$"},
+        {"name": "faults", "pkg": "./c15", "run": "^TestRapidFaults$", "rapid": T(6000, 60000), "shards": T(1, 4), "replay": "^TestReplay$"},
         {"name": "concurrent", "pkg": "./c15", "run": "^TestConcurrent$", "rapid": T(400, 4000), "shards": T(1, 4)},
         {"name": "concurrent-race", "pkg": "./c15", "race": True, "run": "^TestConcurrent$", "rapid": T(100, 1000)},
     ],
@@ -158,7 +159,7 @@ PROPS["C15"] = {
                     "Close ends the held set (documented: held lines of an untriggered writer are never written) and leaves the trigger latch",
                     "concurrent job: interleavings the Go scheduler produces, plus -race"],
     "claim": {"ref": "DESIGN.md §5 C15", "technique": "bounded-exhaustive enumeration of short histories + rapid state sequences against a TriggerLevelWriter reference model; concurrent multiset/order check with overlap detector",
-              "text": "Generated-input search: every history up to length 5 (6 in thorough) over {write at 4 levels, Trigger, Close, fresh instance} for 25 threshold pairs and both destination kinds, plus random histories over the whole int8 level range with lines crossing the pooled-buffer sizes and several instances in sequence (pool hand-over), must leave the destination equal to the model after every step. Concurrent writers must lose, duplicate or alter no line, keep per-goroutine order and never overlap in the destination. Held on everything explored.",
+              "text": "Generated-input search: every history up to length 5 (6 in thorough) over {write at 4 levels, Trigger, Close, fresh instance} for 25 threshold pairs and both destination kinds, plus random histories over the whole int8 level range with lines crossing the pooled-buffer sizes and several instances in sequence (pool hand-over), must leave the destination equal to the model after every step. Concurrent writers must lose, duplicate or alter no line, keep per-goroutine order and never overlap in the destination. In fault histories (the destination refuses chosen calls) the accepted lines must be a subsequence of the fault-free delivery (nothing twice, altered, reordered or invented). Held on everything explored.",
               "note": "Sequential part deterministic; concurrent part limited to runtime-produced interleavings."},
 }
 
